@@ -5,7 +5,9 @@ sys.path.insert(0, os.path.dirname(os.path.abspath(__file__)))
 from build import *
 
 
-_PLANNERS = {}   # planner objects are shared by all cases of a process with the same settings (object reuse)
+_PLANNERS = {}
+_PREV = None     # previous case's result objects and what they said
+_LAST = {}   # planner objects are shared by all cases of a process with the same settings (object reuse)
 
 
 def negated(case, explicit_lists=False):
@@ -57,6 +59,13 @@ def one(case, pl):
                 cache[s] = tuple(a)
             return cache[s]
         mdp._actions = permuted
+    if case.get("actions_shared_list") and len({tuple(a) for a in case["mdp"]["actions"]}) == 1:
+        shared = list(case["mdp"]["actions"][0])      # ONE list object handed out for every state
+        mdp._actions = lambda s, _l=shared: _l
+    if case.get("int_gamma") and Fraction(case["mdp"]["gamma"]) == 1:
+        mdp.discount_rate = 1                         # an int, as a user writing discount_rate=1 passes it
+    snap = lambda: repr([(s, list(mdp.actions(s))) for s in mdp.state_list])
+    before = snap()
     sl, al = list(mdp.state_list), list(mdp.action_list)
     res = {"state_list": sl, "action_list": al,
            "absorbing_vec": [bool(x) for x in mdp.absorbing_state_vec],
@@ -76,6 +85,7 @@ def one(case, pl):
             if key not in _PLANNERS:
                 _PLANNERS[key] = mk()
             r = _PLANNERS[key].plan_on(mdp)
+            _LAST[name] = r
             # the dict version's tables only span the actions it stored: an action outside a
             # table's action domain is "unavailable everywhere" (-inf) / probability 0
             qal, pal = list(r.action_value.action_list), list(r.policy.action_list)
@@ -89,6 +99,26 @@ def one(case, pl):
             if isinstance(e, (KeyboardInterrupt, SystemExit)):
                 raise
             res["planners"][name] = {"error": type(e).__name__ + ": " + str(e)[:300]}
+    if snap() != before:
+        res["planners"]["vi_vec"] = {"error": "CallerObjectMutated: actions(s) of the problem changed during planning"}
+    # results of the PREVIOUS case of this process, read again after this case's planning (same planner objects):
+    # they must still say what they said then
+    global _PREV
+    if _PREV is not None:
+        for name, (robj, psl, pal, enc) in _PREV.items():
+            try:
+                now = {"V": [fj(robj.state_value[s]) for s in psl],
+                       "pi": [[fj(robj.policy[s][a]) if a in list(robj.policy.action_list) else [0, 1] for a in pal] for s in psl]}
+            except BaseException as e:
+                now = {"error": type(e).__name__}
+            if now != enc:
+                res["planners"][name] = {"error": "StaleResultChanged: the result of an earlier plan_on call reads differently after a later call on the same planner"}
+    _PREV = {}
+    for name in ("vi_vec", "vi_dict", "pi"):
+        key = (name, case["max_residual"], case["max_iterations"], case["undefined_value"])
+        r0 = _LAST.get(name)
+        if r0 is not None and "error" not in res["planners"].get(name, {}):
+            _PREV[name] = (r0, sl, al, {"V": res["planners"][name]["V"], "pi": res["planners"][name]["pi"]})
     if case.get("batch"):
         # the batch entry point of policy iteration: this MDP planned together with variants of itself (same
         # state/action sets, rewards scaled, other discount rates) at a chosen position of the batch
@@ -102,8 +132,11 @@ def one(case, pl):
                     mv = dict(case["mdp"])
                     mv["reward"] = {k: str(Fraction(x) * Fraction(v["scale"])) for k, x in case["mdp"]["reward"].items()}
                     mv["gamma"] = v["gamma"]
-                    mdps.append(negated(mv, explicit_lists=case.get("explicit_lists", False)) if v.get("negated_labels") else
-                                build_mdp(mv, explicit_lists=case.get("explicit_lists", False)))
+                    mvo = (negated(mv, explicit_lists=case.get("explicit_lists", False)) if v.get("negated_labels") else
+                           build_mdp(mv, explicit_lists=case.get("explicit_lists", False)))
+                    if v.get("int_gamma") and Fraction(v["gamma"]) == 1:
+                        mvo.discount_rate = 1
+                    mdps.append(mvo)
             key = ("pi", case["max_residual"], case["max_iterations"], case["undefined_value"])
             if key not in _PLANNERS:
                 _PLANNERS[key] = planners["pi"]()
